@@ -242,7 +242,9 @@ def run(ctx):
                 if len(corr_fail) < 10:
                     corr_fail.append({"op": "rt:call", "script_op": lops[x[0] + 1] if isinstance(x[0], int) else x[0], "impl": x[1], "model": x[2], "files": lout[0]["files"]})
     # collisions must be rejected, naming the service
-    coll = [("Container", None)] + [(m, None) for m in CONTAINER_API] + [("MustX", None), ("XInContext", None), ("Same", "Same")]
+    coll = [("Container", None)] + [(m, None) for m in CONTAINER_API] + [("MustX", None), ("XInContext", None), ("Same", "Same"),
+            # the prefix and the suffix are plain string tests: whatever follows "Must" / precedes "InContext"
+            ("Mustang", None), ("Must", None), ("Must_x", None), ("Must1", None), ("Mustard", "ard"), ("InContext", None), ("xInContext", None), ("X_InContext", None), ("X1InContext", None)]
     for g1, g2 in coll:
         cfg = {"meta": {"imports": {"fx": gen.FX}}, "services": {"svc1": {"constructor": "fx.NewA", "getter": g1}, "svc2": {"constructor": "fx.NewA", **({"getter": g2} if g2 else {})}}}
         a = ctx.impl.ask({"op": "compile", "files": [gen.yaml_doc(cfg)], "version": ""})
